@@ -29,7 +29,8 @@ MODE = P.get("mode", "geom")
 EXCLUDE = list(P.get("exclude", []))
 EXCLUDE_EXACT = list(P.get("exclude_exact", []))
 EXCLUDE_SQL = list(P.get("exclude_sql", []))
-ALLOW_SUFFIX_EXPANSION = bool(P.get("allow_suffix_expansion", False))  # regions expressed on the whole text (substring of sql)
+ALLOW_SUFFIX_EXPANSION = bool(P.get("allow_suffix_expansion", False))
+ALLOW_MARKER_TOKENS = bool(P.get("allow_marker_tokens", False))  # regions expressed on the whole text (substring of sql)
 
 D = Dialect.get_or_raise(DIALECT or None)
 TOK = D.tokenizer()
@@ -117,6 +118,9 @@ def geometry(sql: str) -> str:
     comments = []
     prev = None
     for t in toks:
+        if ALLOW_MARKER_TOKENS and t.text == "" and t.token_type == TokenType.HIVE_TOKEN_STREAM:
+            # listed known finding: Athena prepends a synthetic marker token with default offsets (0, 0)
+            continue
         if not (0 <= t.start <= t.end < n):
             return "range"
         if ALLOW_SUFFIX_EXPANSION and prev is not None and t.start == prev.start and t.end == prev.end and (
